@@ -182,13 +182,11 @@ func (d *DBFT[H]) OnTransaction(tx Transaction[H]) {
 	if i < 0 {
 		return
 	}
-	d.addTransaction(tx)
-	// `addTransaction` checks for responses and commits. If this was the last transaction
-	// Context could be initialized on a new height, clearing this field.
-	if len(d.MissingTransactions) == 0 {
-		return
-	}
+	// Drop the hash from the list of awaited transactions first: addTransaction
+	// may complete the proposal and reinitialize the context (new view and even
+	// a new proposal with its own list), so the index must not be used after it.
 	d.MissingTransactions = slices.Delete(d.MissingTransactions, i, i+1)
+	d.addTransaction(tx)
 }
 
 // OnTimeout advances state machine as if timeout was fired.
